@@ -406,10 +406,10 @@ def dummy(t, depth=0):
         return dummy(typing.get_args(t)[0], depth)
     if origin in (list, typing.List):
         a = typing.get_args(t)
-        return [dummy(a[0], depth + 1)] if a and depth < 3 else []
+        return [dummy(a[0], depth + 1)] if a and depth < 6 else []
     if origin in (dict, typing.Dict):
         a = typing.get_args(t)
-        return {"k": dummy(a[1], depth + 1)} if len(a) == 2 and depth < 3 else {}
+        return {"k": dummy(a[1], depth + 1)} if len(a) == 2 and depth < 6 else {}
     if origin is typing.Union or type(t).__name__ == "UnionType":
         args = [a for a in typing.get_args(t) if a is not type(None)]
         return dummy(args[0], depth) if args else None
@@ -426,7 +426,9 @@ def dummy(t, depth=0):
             kw = {}
             for f in dataclasses.fields(t):
                 if f.default is dataclasses.MISSING and f.default_factory is dataclasses.MISSING:
-                    kw[f.name] = dummy(hints.get(f.name, typing.Any), depth + 1) if depth < 4 else None
+                    # required fields are always built (None is not a value of a required field); the bound only guards
+                    # against a chain of required references that never ends
+                    kw[f.name] = dummy(hints.get(f.name, typing.Any), depth + 1) if depth < 12 else None
             return t(**kw)
         if t is str:
             return "s"
@@ -780,7 +782,8 @@ async def discover(job, p):
             out["methods"].append({"tag": tag, "cls": type(cl).__name__, "method": name, "nature": nature(fn),
                                    "requests": [[q["method"], q["path"]] for q in r["requests"]],
                                    "outcome_kind": r["outcome"]["kind"],
-                                   "exc": r["outcome"].get("exc", {}).get("type") if r["outcome"]["kind"] == "raise" else None})
+                                   "exc": r["outcome"].get("exc", {}).get("type") if r["outcome"]["kind"] == "raise" else None,
+                                   "exc_detail": r["outcome"].get("exc") if r["outcome"]["kind"] == "raise" else None})
     try:
         await api.close()
     except BaseException:  # noqa
@@ -811,6 +814,8 @@ async def positional_calls(job, p):
                     index[(parts[0], q["method"])] = (cl, name, fn)
     for c in job.get("positional_calls", []):
         key = (c["seg"], c["http"])
+        if c["http"] == "*":     # any method of that path segment (jobs shared by several packages)
+            key = next((k for k in index if k[0] == c["seg"]), key)
         if key not in index:
             out["results"][c["id"]] = {"error": "operation_not_found"}
             continue
@@ -855,6 +860,8 @@ async def run_calls(job, p):
     out["index"] = {f"{k[0]} {k[1]}": [[t, n] for t, _, n, _ in v] for k, v in index.items()}
     for c in job.get("calls", []):
         key = (c["seg"], c["http"])
+        if c["http"] == "*":     # any method of that path segment (jobs shared by several packages)
+            key = next((k for k in index if k[0] == c["seg"]), key)
         if key not in index:
             out["results"][c["id"]] = {"error": "operation_not_found"}
             continue
